@@ -13,7 +13,7 @@ THEOREMS = ["C07_canonical", "C07_order", "C07_render_parse", "C07_table_shapes"
 def run(run, args):
     n = (400 if run.tier == "quick" else 6000) * run.scale
     formlib.prepare(run)
-    source_tie(run, ("render",))
+    source_tie(run, ("render", "formula", "espec"))
     rc, out, _ = make(["model/RenderCheck.vo"])
     if rc != 0:
         violation(run, {"broken": "model files do not build", "detail": out[-3000:]}, nofail=True)
@@ -62,6 +62,8 @@ def run(run, args):
     run.oblige("correspondence: model printer and parser = implementation on every composition", not res[0], "%d differ" % len(res[0]))
     run.oblige("one canonical text per composition; it and its serde forms round-trip (outside the listed known finding)", not fails, "")
     broken = standard_proof_obligations(run, "C07", THEOREMS) if THEOREMS else []
+    broken += source_corollaries(run, "C07s", ["C07s_canonical", "C07s_display_canonical", "C07s_order", "C07s_order_any", "C07s_render_parse", "C07s_nonvacuous"],
+                                 ("render", "formula", "espec"))
     for k in sorted(knowns):
         print("KNOWN-FINDING: property=C07 %s %s" % (k, known[k]))
     if errors:
